@@ -35,6 +35,7 @@ def run(ctx):
     simrules.product_sample_order_rule(ctx, 'C02.g')
     simrules.confusion_before_inversion_rule(ctx, 'C02.h')
     simrules.nested_copy_rule(ctx, 'C02.b2')
+    simrules.confusion_key_positions_rule(ctx, 'C02.n')
     simrules.pauli_measurement_decomposition_rule(ctx, 'C02.i')
     ctx.decided.append('C02.i PauliMeasurementGate decomposes into V^-1 . measure . V with V mapping the observable to Z (interpreted for every mask on up to 3 qubits)')
     ctx.decided.append('C02.b2 the classical measurement store copies its per-key record lists, not just the dictionaries')
